@@ -237,7 +237,81 @@ pub fn run_outsider(c: &OutsiderCase) -> CaseResult {
     }
 }
 
+// ---------- meshes in which a node is reachable under several addresses ----------
+
+#[derive(Serialize, Deserialize, Clone, Debug)]
+pub struct MultiAddrCase {
+    /// which nodes reach node 0 through its alias (bit i = node i+1); the others use its real address
+    pub via_alias: u8,
+    pub mode: String,
+    pub settle: usize,
+}
+
+pub fn run_multi_addr(c: &MultiAddrCase) -> CaseResult {
+    let mode = if c.mode == "switch" { Mode::Switch } else { Mode::Hub };
+    let mut net = Net::<Frame>::new();
+    for _ in 0..3 {
+        net.add_node(&base_config(mode, Type::Tap, 0, &[0]), false);
+    }
+    let alias = addr_of(201);
+    net.aliases = vec![(alias, 0)];
+    let real = net.addrs[0];
+    for i in 1..3usize {
+        let target = if c.via_alias & (1 << (i - 1)) != 0 { alias } else { real };
+        net.configure_peer(i, target);
+    }
+    net.deliver_all(512);
+    for _ in 0..c.settle {
+        net.tick();
+        net.deliver_all(512);
+    }
+    for i in 0..3 {
+        net.pop_frames(i);
+    }
+    // one session per node: nobody holds two peer entries with the same node id
+    for i in 0..3 {
+        let ids: Vec<_> = net.nodes[i].verif_peers().iter().map(|p| p.node_id).collect();
+        let mut uniq = ids.clone();
+        uniq.sort();
+        uniq.dedup();
+        if uniq.len() != ids.len() {
+            return Err(Fail::new("duplicate_session", format!("node {} holds {} peer entries for {} distinct nodes: {:?}", i, ids.len(), uniq.len(), net.nodes[i].verif_peers().iter().map(|p| p.addr).collect::<Vec<_>>())));
+        }
+        if uniq.len() != 2 {
+            return Err(Fail::new("no_full_mesh", format!("node {} has {} peers after {} s", i, uniq.len(), c.settle)));
+        }
+    }
+    // conservation for a flooded frame from every node
+    for from in 0..3usize {
+        net.queue.clear();
+        let f = eth_frame([0xff; 6], [2, 0, 0, 0, 0, from as u8 + 1], None, format!("flood from {}", from).as_bytes());
+        net.put_frame(from, f.clone()).map_err(|e| Fail::new("send_error", format!("{}", e)))?;
+        let sent = net.queue.len();
+        net.deliver_all(64);
+        for r in 0..3 {
+            let got = net.pop_frames(r);
+            let want = if r == from { 0 } else { 1 };
+            if got.len() != want || got.iter().any(|g| g != &f) {
+                return Err(Fail::new("wrong_delivery", format!("flooded frame from node {}: node {} wrote {} frame(s) (expected {}), {} datagrams on the wire", from, r, got.len(), want, sent)).with("mode", c.mode.clone()));
+            }
+        }
+        if sent != 2 {
+            return Err(Fail::new("wrong_wire", format!("flooded frame from node {} caused {} datagrams, expected 2", from, sent)).with("mode", c.mode.clone()));
+        }
+    }
+    Ok(1 + c.via_alias as u64)
+}
+
 pub fn run(ctx: &Ctx) {
+    let mut multi = vec![];
+    for via_alias in 0..4u8 {
+        for mode in ["switch", "hub"] {
+            for settle in [5usize, 100, 200] {
+                multi.push(MultiAddrCase { via_alias, mode: mode.to_string(), settle });
+            }
+        }
+    }
+    sweep_list(ctx, "multi_address_mesh", &multi, SweepOpts { chunk: 1, ..Default::default() }, run_multi_addr);
     let m = Router { n: 3 };
     let res = explore::explore(
         ctx,
@@ -275,6 +349,7 @@ pub fn run(ctx: &Ctx) {
 pub fn replay(family: &str, case: &Value) -> Option<CaseResult> {
     match family {
         "outsiders" => replay_with::<OutsiderCase>(case, run_outsider),
+        "multi_address_mesh" => replay_with::<MultiAddrCase>(case, run_multi_addr),
         f if f.starts_with("isolation_router") => {
             let hist: Vec<Ev> = serde_json::from_value(case["history"].clone()).ok()?;
             let n = if f.contains('4') { 4 } else { 3 };
